@@ -1081,9 +1081,12 @@ class ChannelFactory:
             except Exception as exc:
                 self.gateway._trace("exception during callback: %s" % exc)
                 errortext = self.gateway._geterrortext(exc)
-                self.gateway._send(
-                    Message.CHANNEL_CLOSE_ERROR, id, dumps_internal(errortext)
-                )
+                # the peer may be gone already: telling it must not end the
+                # receiver thread before it has noticed the lost connection
+                with suppress(OSError):
+                    self.gateway._send(
+                        Message.CHANNEL_CLOSE_ERROR, id, dumps_internal(errortext)
+                    )
                 self._local_close(id, RemoteError(errortext))
 
     def _finished_receiving(self) -> None:
